@@ -35,7 +35,8 @@ package controller
 //@ func (*Controller).tryEnsureProc
 //@   prop C08
 //@   requires ctlwf(c)
-//@   modifies mapof(c.procs)
+//@   modifies mapof(c.procs), ensuren, ensurename, ensurecfg, ensurehosts
+//@   ghostdef ensuren == old(ensuren) + 1 && ensurename == svcName && ensurecfg == cfg && ensurehosts == len(hosts)
 //@   ensures @registered-when-created ctlwf(c) && (p != nil ==> svcName != "" && cfg != nil && cfgvalid(cfg) && has(c.procs, svcName) && c.procs[svcName] == p)
 //@   ensures @nothing-registered-otherwise p == nil ==> forall n string :: has(c.procs, n) == old(has(c.procs, n)) && (has(c.procs, n) ==> c.procs[n] == old(c.procs[n]))
 //@   ensures @others-untouched forall n string :: n != svcName ==> has(c.procs, n) == old(has(c.procs, n)) && (has(c.procs, n) ==> c.procs[n] == old(c.procs[n]))
@@ -43,7 +44,9 @@ package controller
 //@ func (*Controller).handleSvcAdd
 //@   prop C08
 //@   requires ctlwf(c) && epsok(endpoints)
-//@   modifies mapof(c.procs), atombool
+//@   modifies mapof(c.procs), atombool, ensuren, ensurename, ensurecfg, ensurehosts
+//@   ensures @an-announced-service-without-a-processor-is-brought-up-whatever-its-endpoint-list !old(has(c.procs, svcName)) ==> ensuren == old(ensuren) + 1 && ensurename == svcName && ensurecfg == cfg && ensurehosts == len(endpoints)
+//@   ensures @an-announcement-for-a-running-service-starts-nothing old(has(c.procs, svcName)) ==> ensuren == old(ensuren)
 //@   ensures @well-formed ctlwf(c)
 //@   ensures @an-existing-processor-is-kept old(has(c.procs, svcName)) ==> has(c.procs, svcName) && c.procs[svcName] == old(c.procs[svcName])
 //@   ensures @others-untouched forall n string :: n != svcName ==> has(c.procs, n) == old(has(c.procs, n)) && (has(c.procs, n) ==> c.procs[n] == old(c.procs[n]))
